@@ -187,6 +187,44 @@ pub fn deflate_oneshot<A: Z>(cfg: &DefCfg, data: &[u8], dict: Option<&[u8]>) -> 
     Some(out)
 }
 
+/// a stream made of several deflate calls: `cuts` are input positions after which `flush` is requested
+/// (Z_SYNC_FLUSH / Z_FULL_FLUSH leave the 00 00 FF FF marker inflateSync searches for), Z_FINISH at the end
+pub fn deflate_flushed<A: Z>(cfg: &DefCfg, data: &[u8], cuts: &[usize], flush: c_int) -> Option<Vec<u8>> {
+    let mut strm = zs();
+    let rc = unsafe { A::deflateInit2(&mut strm, cfg.level, 8, cfg.window_bits_arg(), cfg.mem_level, cfg.strategy) };
+    if rc != Z_OK {
+        return None;
+    }
+    let mut out = vec![0u8; data.len() + data.len() / 8 + 1024 + 16 * cuts.len()];
+    strm.next_out = out.as_mut_ptr();
+    strm.avail_out = out.len() as u32;
+    let mut pos = 0usize;
+    let mut ok = true;
+    for &c in cuts.iter().chain(std::iter::once(&data.len())) {
+        let c = c.min(data.len()).max(pos);
+        strm.next_in = data[pos..].as_ptr();
+        strm.avail_in = (c - pos) as u32;
+        let last = c == data.len();
+        let rc = unsafe { A::deflate(&mut strm, if last { Z_FINISH } else { flush }) };
+        pos = c;
+        if last {
+            ok = rc == Z_STREAM_END;
+            break;
+        }
+        if rc != Z_OK {
+            ok = false;
+            break;
+        }
+    }
+    let n = strm.total_out as usize;
+    unsafe { A::deflateEnd(&mut strm) };
+    if !ok {
+        return None;
+    }
+    out.truncate(n);
+    Some(out)
+}
+
 #[derive(Clone, Debug, PartialEq, Eq)]
 pub enum Label {
     /// valid by construction; expected output and exact length known
